@@ -169,7 +169,7 @@ func specshareComponent(g *G, n int, opts map[string]string) *Out {
 			}
 			c := &shCase{Spec: g.specNoLoop(opts)}
 			walkers := goroutines
-			if len(todo) == 1 && opts["nocrowd"] == "" {
+			if len(todo) == 1 && opts["crowd"] != "" {
 				// a crowd: a hundred machines inside interpreted actions of one specification at the same time (every
 				// interpreted action takes a while)
 				walkers = 100
@@ -184,6 +184,15 @@ func specshareComponent(g *G, n int, opts map[string]string) *Out {
 			}
 			for i := 0; i < walkers; i++ {
 				w := &shWalk{State: g.astate(c.Spec), Limit: 1 + g.intn(10)}
+				if walkers > goroutines {
+					w.Limit = 2 // a crowd: every interpreted action takes tens of milliseconds
+					for _, name := range sortedKeys(nodesAsMap(c.Spec)) {
+						if nd := c.Spec.Nodes[name]; nd.Action != nil && !nd.Action.Native {
+							w.State.Node = name // every machine of the crowd starts at an interpreted action
+							break
+						}
+					}
+				}
 				if w.State.Bs != nil && g.mode == "c18" {
 					w.State.Bs["cfg!"] = fmt.Sprintf("walker-%d", i)
 					w.State.Bs["ver!"] = float64(i)
